@@ -391,10 +391,10 @@ func buildCLI(c *engine.Ctx) string {
 }
 
 type cliResult struct {
-	Exit   int
-	Stdout string
-	Stderr string
-	Files  map[string]string // relative path -> content, after the run
+	Exit    int
+	Stdout  string
+	Stderr  string
+	Files   map[string]string // relative path -> content, after the run
 	Timeout bool
 }
 
